@@ -87,6 +87,16 @@ def quote(name):
     return '"' + name.replace("\\", "\\\\").replace('"', '\\"') + '"'
 
 
+_ATOM_NAME = re.compile(r"[A-Za-z0-9_.+\-/=!$&',:;<>?@^`|~]+\Z")
+
+
+def spell(name, op):
+    """The mailbox name as this op writes it: a bare atom when the op asks for it and the name allows it, else quoted."""
+    if op.get("bare") and _ATOM_NAME.match(name):
+        return name
+    return quote(name)
+
+
 def code_of(res, name):
     """Response code `name` from the tagged reply or an untagged OK."""
     cands = []
@@ -132,6 +142,7 @@ class MBox:
         self.maybe = {}  # tok -> MMsg: deliveries whose fate the model lost track of (may turn up, need not)
         self.nonrecent = set()  # uids the observer has seen without \Recent (it can never come back)
         self.uncertain = False  # model lost track (after a tolerated finding)
+        self.renamed_in = False  # got its current name through RENAME before its UIDVALIDITY was ever seen
 
     def by_uid(self, uid):
         for m in self.msgs:
@@ -157,14 +168,13 @@ class Model:
     def __init__(self):
         self.boxes = {}
         self.name_uvv_max = {}  # name -> highest UIDVALIDITY the name ever had
+        self.pair_owner = {}  # (name, UIDVALIDITY) -> incarnation that was first seen under it
         self.sessions = {}
 
     def box(self, name):
         if name is None:
             return None
-        if name.lower() == "inbox":
-            name = "inbox"
-        return self.boxes.get(name)
+        return self.boxes.get(norm_mbox_name(name))
 
     def children(self, name):
         p = name + "/"
@@ -173,7 +183,7 @@ class Model:
 
 BLAMEABLE = {
     ("C04", "flags_diverge"), ("C05", "message_lost"), ("C05", "message_unexpected"), ("C05", "date_differs"),
-    ("C03", "order_or_uid_changed"), ("C13", "mh_sequences_diverge"),
+    ("C03", "order_or_uid_changed"), ("C13", "mh_sequences_diverge"), ("C03", "seq_uid_mismatch"), ("C17", "mailbox_unselectable"),
 }
 
 
@@ -441,7 +451,7 @@ class Interp:
             path = os.path.join(self.maildir, name or "")
             if self.delivered and os.path.isdir(path):
                 self.C("c13_disk_vs_view")
-                keys = [k for k in os.listdir(path) if k.isdigit()]
+                keys = [k for k in os.listdir(path) if k.isdigit() and not os.path.isdir(os.path.join(path, k))]
                 try:
                     fm = int(max(os.stat(path).st_mtime, os.stat(os.path.join(path, ".mh_sequences")).st_mtime))
                     newest = max((int(os.stat(os.path.join(path, k)).st_mtime) for k in keys if (path, k) in self.delivered), default=None)
@@ -451,7 +461,7 @@ class Interp:
                     # give the poll (1-5 s) one more chance, then it is a miss
                     await asyncio.sleep(6.0)
                     r2 = await self.run_cmd(sess, ms, "NOOP")
-                    if r2.ok and sess.view is not None and len([k for k in os.listdir(path) if k.isdigit()]) > len(sess.view):
+                    if r2.ok and sess.view is not None and len([k for k in os.listdir(path) if k.isdigit() and not os.path.isdir(os.path.join(path, k))]) > len(sess.view):
                         self.V("C13", "delivery_not_announced", session=sid, verb="NOOP", view=len(sess.view), files=len(keys), mailbox=name, mode="concurrent")
 
     def waitfor_picture(self):
@@ -629,13 +639,23 @@ class Interp:
             self.C("c02_uidvalidity")
             if box.uvv is None:
                 prev = self.model.name_uvv_max.get(box.name)
-                if prev is not None and uvv <= prev:
+                # (the rule is about a name that is deleted and created again: a mailbox that got the name through
+                # RENAME keeps the UIDVALIDITY it had - the pair rule below covers it)
+                if prev is not None and uvv <= prev and not box.renamed_in:
                     self.V("C02", "uidvalidity_not_increased", mailbox=box.name, uvv=uvv, previous_max=prev, where=where)
                 box.uvv = uvv
                 self.model.name_uvv_max[box.name] = max(prev or 0, uvv)
             elif box.uvv != uvv:
                 self.V("C02", "uidvalidity_changed", mailbox=box.name, was=box.uvv, now=uvv, where=where)
                 box.uvv = uvv
+            # a (mailbox name, UIDVALIDITY) pair never identifies two different incarnations - also not when
+            # mailboxes that happen to have the same UIDVALIDITY trade names through RENAME
+            inc = (id(box), len(box.uvv_history))
+            owner = self.model.pair_owner.setdefault((box.name, uvv), inc)
+            if owner != inc:
+                self.C("c02_pair_owner")
+                self.V("C02", "name_uidvalidity_pair_reused", mailbox=box.name, uvv=uvv, where=where)
+                self.model.pair_owner[(box.name, uvv)] = inc
         if uidnext is not None:
             self.C("c02_uidnext")
             if uidnext <= box.max_uid:
@@ -675,13 +695,14 @@ class Interp:
     def live_keys(self, box):
         path = os.path.join(self.maildir, box.name)
         try:
-            return sorted(int(x) for x in os.listdir(path) if x.isdigit())
+            # (an all-digit directory is a sub-mailbox such as Archive/2024, not a message)
+            return sorted(int(x) for x in os.listdir(path) if x.isdigit() and not os.path.isdir(os.path.join(path, x)))
         except OSError:
             return []
 
     async def compare_box(self, box, why="", initial=False):
         """Observer probe of one mailbox compared with the model."""
-        if box.noselect:
+        if box.noselect or getattr(self, "shutting_down", False):
             return
         p = await self.probe_box(box, why)
         if p is None:
@@ -878,7 +899,7 @@ class Interp:
             await self.compare_box(box, why="initial" if initial else ("final" if final else "probe"), initial=initial)
 
     async def after_mutation(self, boxes, why):
-        if not self.compare:
+        if not self.compare or getattr(self, "shutting_down", False):
             return
         if self.probe_p < 1.0:
             # sparse probing: the read-only observer is itself a client of the server (its EXAMINE
@@ -916,6 +937,12 @@ class Interp:
         uidcmd = bool(op.get("uid"))
         view = sess.view or []
         box = ms.selected
+        if self.compare and box is not None and not box.uncertain and self.view_synced(sess, box):
+            # what the session has been told about the messages it can see is what the model knows, too (under
+            # sparse probing a delivery may not have been looked at by the observer yet)
+            # (only a UID above every UID the model has seen there: a stale cell of a session with EXPUNGEs
+            # pending holds the UID of a message that is gone)
+            self.learn_uids(sess, box, fresh_only=True)
         if "raw" in st:
             return st["raw"], None, None
         if "all" in st:
@@ -994,7 +1021,7 @@ class Interp:
             ms.dead = True
             if ms.selected is not None:
                 ms.selected = None
-            if not sess.bye:
+            if not sess.bye and not getattr(self, "shutting_down", False):
                 self.V("C06", "session_dead_without_bye", session=sess.sid, cmd=cmd[:80])
             return True
         self.V("C06", "no_tagged_reply", session=sess.sid, cmd=cmd[:80], waited=round(self.loop.time() - r.sent_at, 1))
@@ -1050,7 +1077,7 @@ class Interp:
         ms.selected = None
         ms.know = {}
         ms.maybe_pending = False
-        r = await self.run_cmd(sess, ms, f"{verb} {quote(name)}")
+        r = await self.run_cmd(sess, ms, f"{verb} {spell(name, op)}")
         if r.status is None or ms.dead:
             return
         if box is None or box.noselect:
@@ -1073,7 +1100,7 @@ class Interp:
         c = code_of(r, "UIDNEXT")
         un = int(c[0]) if c else None
         self.check_uid_codes(box, uvv, un, verb)
-        ms.sel_uvv = (("inbox" if name.lower() == "inbox" else name), uvv) if uvv is not None else None  # identity of the incarnation selected
+        ms.sel_uvv = (norm_mbox_name(name), uvv) if uvv is not None else None  # identity of the incarnation selected
         ro = "READ-ONLY" in (str(r.code[0]).upper() if r.code else "")
         self.C("c05_readonly_code")
         if bool(op.get("examine")) != ro:
@@ -1089,10 +1116,13 @@ class Interp:
             else:
                 self.learn_uids(sess, box)
 
-    def learn_uids(self, sess, box):
+    def learn_uids(self, sess, box, fresh_only=False):
         for cell, m in zip(sess.view or [], box.msgs):
             if cell is not None and m.uid is None:
+                if fresh_only and cell <= box.max_uid:
+                    return
                 m.uid = cell
+                box.max_uid = max(box.max_uid, cell)
 
     async def op_unselect(self, op):
         sess, ms = self.sess(op)
@@ -1121,7 +1151,7 @@ class Interp:
         flags = op.get("flags", [])
         date = int(op.get("date", 1_600_000_000 + tok))
         fl = "(" + " ".join(flags) + ") " if flags or op.get("force_flags") else ""
-        head = f'APPEND {quote(name)} {fl}"{fmt_internaldate(date)}" '.encode("latin-1")
+        head = f'APPEND {spell(name, op)} {fl}"{fmt_internaldate(date)}" '.encode("latin-1")
         lit = b"{%d%s}\r\n" % (len(data), b"+" if op.get("nonsync") else b"")
         r = await self.run_cmd(sess, ms, head + lit + data, verb="APPEND")
         if r.status is None:
@@ -1436,7 +1466,7 @@ class Interp:
             if not e.ok:
                 continue
             c = code_of(e, "UIDVALIDITY")
-            uvv = (("inbox" if name.lower() == "inbox" else name), int(c[0])) if c else None
+            uvv = (norm_mbox_name(name), int(c[0])) if c else None
             f = await self.obs.command("UID FETCH 1:* (UID FLAGS)")
             if self.seen_oracle and f.ok:
                 # C13: nothing in this program touches \\Seen (no non-peek body fetch, no STORE of \\Seen): what an MH
@@ -1677,12 +1707,12 @@ class Interp:
         if move:
             self.other_removal = True
         if box is None:
-            await self.run_cmd(sess, ms, f"{'UID ' if op.get('uid') else ''}{verb} 1 {quote(dstname)}")
+            await self.run_cmd(sess, ms, f"{'UID ' if op.get('uid') else ''}{verb} 1 {spell(dstname, op)}")
             return
         txt, uids, valid = self.resolve_set(sess, ms, op)
         vlen = list(sess.view or [])  # (the whole view: an EXPUNGE plus an EXISTS leave the length unchanged)
         view_before = list(sess.view or [])
-        r = await self.run_cmd(sess, ms, f"{'UID ' if op.get('uid') else ''}{verb} {txt} {quote(dstname)}")
+        r = await self.run_cmd(sess, ms, f"{'UID ' if op.get('uid') else ''}{verb} {txt} {spell(dstname, op)}")
         if r.status is None or ms.dead:
             self.tag_taint = True  # it may have copied tagged messages anywhere
             return
@@ -1708,7 +1738,7 @@ class Interp:
             extra = sorted(set(cu[1]) - set(u for u in uids if u is not None))
             if extra:
                 self.V("C05", "copy_hit_wrong_message", session=sess.sid, cmd=f"UID {verb} {txt}", asked=sorted(u for u in uids if u is not None), copied=sorted(cu[1]))
-        if not op.get("uid") and "pos" in (op.get("set") or {}) and not self.view_synced_list(view_before, box):
+        if not op.get("uid") and "pos" in (op.get("set") or {}) and not self.view_synced_list(view_before, box) and any(u.kind == "EXPUNGE" for u in r.untagged):
             # The session had EXPUNGEs pending.  COPY/MOVE may legally flush
             # them first; the numbers are then booked against the view after
             # the EXPUNGEs that preceded the command's first effect.
@@ -1726,6 +1756,14 @@ class Interp:
             else:
                 uids, valid = [], False
             self.C("c01_flush_then_copy")
+            # C01: a sequence number the server accepts denotes the message it denoted in the session's
+            # replayed view when the command was sent. If the server first sends EXPUNGEs and then applies
+            # the numbers to the new numbering, it acts on a message the client did not name.
+            meant = [view_before[p - 1] for p in nums if 1 <= p <= len(view_before)]
+            if r.ok and cu is not None and len(meant) == len(nums) and all(u is not None for u in meant) and any(u.kind == "EXPUNGE" for u in r.untagged):
+                if sorted(set(cu[1])) != sorted(set(meant)):
+                    self.V("C01", "seq_accepted_wrong_message", session=sess.sid, cmd=f"{verb} {txt}", meant=sorted(set(meant)), acted_on=sorted(set(cu[1])), why="EXPUNGE sent inside the command, numbers applied afterwards")
+                    self.V("C05", "copy_hit_wrong_message", session=sess.sid, cmd=f"{verb} {txt}", asked=sorted(set(meant)), copied=sorted(set(cu[1])))
         if ("*" in txt or valid is False) and list(sess.view or []) != vlen:
             uids = None
             valid = None
@@ -1821,6 +1859,8 @@ class Interp:
         self.C("c04_propagation")
         for m in box.msgs:
             k = ms.know.get(m.uid)
+            if k is not None and m.amb and (k ^ m.flags) == {"\\seen"}:
+                continue  # split delivery looked at midway: either seen-ness is legitimate until the observer settles it
             if k is not None and k != m.flags:
                 self.V(
                     "C04", "change_not_propagated", session=sess.sid, uid=m.uid, told=sorted(k), model=sorted(m.flags), verb=verb,
@@ -2013,7 +2053,10 @@ class Interp:
         if unseen:
             if op.get("split"):
                 await asyncio.sleep(op.get("split_delay", 0.05))
-            folder = stdmailbox.MH(path, create=False)
+            try:
+                folder = stdmailbox.MH(path, create=False)
+            except stdmailbox.NoSuchMailboxError:
+                return  # renamed or deleted meanwhile (concurrent mode): the agent's second step has nowhere to go
             try:
                 seqs = folder.get_sequences()
             except Exception:
@@ -2087,9 +2130,70 @@ class Interp:
     async def op_restart(self, op):
         """Orderly shutdown and relaunch (C12)."""
         kind = op.get("kind", "expire")
-        before = await self.snapshot_visible() if op.get("compare", True) else None
+        inflight = op.get("inflight")
+        incomplete = False
+        pre = None
+        if inflight is not None and self.sessions.get(inflight.get("s")) is not None:
+            # C12: the orderly shutdown arrives while a command is in flight (SIGINT/SIGTERM of the per-user server
+            # with clients connected).  The command is sent, and at its `at_event`-th storage event (file-system
+            # mutation or db write) the shutdown begins.
+            kind = "cancel"
+            pre = {n: (b.uvv, [(m.uid, m.tok) for m in b.msgs]) for n, b in self.model.boxes.items() if not b.noselect and not b.uncertain}
+            cnt = {"k": 0}
+            trig = asyncio.Event()
+            prev_hook = self.env.storage_hook
+
+            def hook(kind_, a, b, _cnt=cnt, _trig=trig, _prev=prev_hook, _at=int(op.get("at_event", 1))):
+                if _prev is not None:
+                    _prev(kind_, a, b)
+                _cnt["k"] += 1
+                if _cnt["k"] >= _at:
+                    _trig.set()
+
+            self.env.storage_hook = hook
+            self.shutting_down = True
+            fut = asyncio.ensure_future(self.do_op(inflight))
+            tw = asyncio.ensure_future(trig.wait())
+            await asyncio.wait({fut, tw}, return_when=asyncio.FIRST_COMPLETED, timeout=120)
+            self.env.storage_hook = prev_hook
+            tw.cancel()
+            incomplete = not fut.done()
+            self.ctx.probe("shutdown_with_command_in_flight", 1 if incomplete else 0)
+            if incomplete:
+                self.env.fired("shutdown_in_flight")
+                # One cancellation of run() (one SIGINT).  asyncio's Server.wait_closed() lets the connected clients
+                # finish first, so the command goes on until its client is gone: the clients drop their connections
+                # (no LOGOUT) a moment later, the victim's first.
+                self.node.run_task.cancel()
+                await asyncio.sleep(float(op.get("drop_after", 0.0)))
+                order = [inflight.get("s")] + [x for x in self.sessions if x != inflight.get("s")]
+                for sid in order:
+                    s_ = self.sessions.get(sid)
+                    if s_ is not None and not s_.lost:
+                        s_.close()
+                ok = await self.node.stop_cancel(cancel=False)
+                if not ok:
+                    self.V("C12", "shutdown_hung", waited=300, inflight=inflight.get("op"))
+                    if os.environ.get("VERIF_DEBUG_TASKS"):
+                        for t in asyncio.all_tasks():
+                            if not t.done():
+                                print("TASK", t.get_name())
+                                t.print_stack(limit=6)
+                done, _ = await asyncio.wait({fut}, timeout=60)
+                if not done:
+                    fut.cancel()
+                    try:
+                        await fut
+                    except BaseException:
+                        pass
+                elif fut.exception() is not None:
+                    raise fut.exception()
+            elif fut.exception() is not None:
+                raise fut.exception()
+            self.shutting_down = False
+        before = await self.snapshot_visible() if op.get("compare", True) and not incomplete else None
         for sid, s in list(self.sessions.items()):
-            if not s.lost:
+            if not s.lost and not incomplete:
                 try:
                     await s.command("LOGOUT")
                 except Exception:
@@ -2097,9 +2201,13 @@ class Interp:
                 s.close()
             self.model.sessions[sid].dead = True
             self.model.sessions[sid].selected = None
+            if incomplete:
+                s.close()
         await asyncio.sleep(0.05)
         self.restarts += 1
-        if kind == "expire":
+        if incomplete:
+            pass  # already stopped
+        elif kind == "expire":
             ok = await self.node.wait_exit(timeout=1800 + 120)
             self.ctx.probe("idle_expiry_exit", 1 if ok else 0)
             if not ok:
@@ -2124,7 +2232,62 @@ class Interp:
         if before is not None:
             after = await self.snapshot_visible()
             self.compare_snapshots(before, after, bool(op.get("while_down")))
+        if incomplete:
+            await self.after_inflight_shutdown(pre, inflight)
         self.ctx.nontrivial = True
+
+    async def after_inflight_shutdown(self, pre, victim):
+        """The state after an orderly shutdown that interrupted `victim`: neither the old nor the new state can be
+        demanded of the mailboxes the command worked on, but what survives keeps its identity (same UIDVALIDITY =>
+        same UID for the same message, ledger: no UID names another message), every listed mailbox can be
+        selected, and a second orderly restart changes nothing (checked by the ordinary comparison)."""
+        self.C("c12_inflight_shutdown")
+        r = await self.obs.command('LIST "" "*"')
+        listed = {("inbox" if n.upper() == "INBOX" else n): a for n, a in self.parse_list(r)}
+        # the namespace as it is now
+        for n in list(self.model.boxes):
+            if n not in listed:
+                del self.model.boxes[n]
+        for n, attrs in listed.items():
+            b = self.model.boxes.get(n)
+            if b is None:
+                b = self.model.boxes[n] = MBox(n)
+                b.uncertain = True
+            nosel = "\\noselect" in attrs
+            if nosel != b.noselect:
+                b.noselect = nosel
+                b.msgs = []
+                b.uvv = None
+                b.uncertain = not nosel
+        for n, b in self.model.boxes.items():
+            if not b.noselect:
+                b.uncertain = True
+                b.subscribed_unknown = True
+        r = await self.obs.command('LSUB "" "*"')
+        subs = {("inbox" if n.upper() == "INBOX" else n) for n, _ in self.parse_list(r, "LSUB")}
+        for n, b in self.model.boxes.items():
+            b.subscribed = n in subs
+        for n, b in list(self.model.boxes.items()):
+            if b.noselect:
+                continue
+            was = pre.get(n) if pre else None
+            old_uvv = b.uvv
+            p = await self.probe_box(b)
+            if p is None or not p["ok"]:
+                self.V("C12", "mailbox_unselectable_after_shutdown", mailbox=n, inflight=victim.get("op"))
+                continue
+            await self.compare_box(b, why="inflight-shutdown")
+            # (MOVE gives the messages it moves new UIDs, within the same mailbox too; a mailbox whose DELETE or RENAME
+            # was cut short is the command's own subject)
+            if was is not None and was[0] is not None and p["uvv"] == was[0] and victim.get("op") in ("expunge", "close", "store", "copy", "append", "create"):
+                self.C("c12_inflight_survivors_keep_uid")
+                olduid = {tok: uid for uid, tok in was[1] if uid is not None and tok is not None}
+                for g in p["msgs"]:
+                    if g["tok"] in olduid and olduid[g["tok"]] != g["uid"] and [t for _, t in was[1]].count(g["tok"]) == 1 and [x["tok"] for x in p["msgs"]].count(g["tok"]) == 1:
+                        self.V("C12", "restart_changed_uid", mailbox=n, tok=g["tok"], was=olduid[g["tok"]], now=g["uid"], inflight=victim.get("op"))
+                        break
+        # and a second orderly restart changes nothing
+        await self.op_restart({"actor": "life", "op": "restart", "kind": "cancel"})
 
     def compare_snapshots(self, before, after, changed_while_down):
         self.C("c12_restart_compare")
@@ -2207,6 +2370,15 @@ def imap_match(pattern, name):
     return m(0, 0)
 
 
+def norm_mbox_name(name):
+    """The one spelling of a mailbox name: no empty or "." components, no leading or trailing separator, INBOX (also
+    as the first part of the name of a mailbox below it) in one case."""
+    parts = [p for p in name.split("/") if p not in ("", ".")]
+    if parts and parts[0].lower() == "inbox":
+        parts[0] = "inbox"
+    return "/".join(parts) if parts else "."
+
+
 _LIST_EXT = re.compile(r'^(?:\((?P<sel>[^)]*)\) )?"(?P<ref>[^"]*)" (?:\((?P<pats>[^)]*)\)|"(?P<p1>[^"]*)")(?: RETURN \((?P<ret>.*)\))?$')
 
 
@@ -2248,6 +2420,11 @@ class NamespaceOps:
             line = f"LIST {ext}"
         else:
             line = f"{verb} {quote(ref)} {quote(pat)}"
+            if os.environ.get("VERIF_DEBUG_DB"):
+                import sqlite3, glob as _g
+                for f in _g.glob(os.path.join(self.maildir, "*.db")):
+                    print("DB", f, sqlite3.connect(f).execute("select name,attributes from mailboxes").fetchall())
+                print("DIRS", [d[0] for d in self.dir_snapshot()])
         r = await self.run_cmd(sess, ms, line)
         if r.status is None or not self.compare or not r.ok:
             return
@@ -2362,7 +2539,7 @@ class NamespaceOps:
         name = op["name"]
         before = self.dir_snapshot() if self.compare else None
         lsub_before = None
-        line = f"CREATE {quote(name)}"
+        line = f"CREATE {spell(name, op)}"
         if self.compare:
             lsub_before = self.list_key_view(await self.obs.command('LIST "" "*"'))
         r = await self.run_cmd(sess, ms, line)
@@ -2374,8 +2551,15 @@ class NamespaceOps:
             after = self.list_key_view(await self.obs.command('LIST "" "*"'))
             if after != lsub_before:
                 self.V("C17", "refused_namespace_command_had_effect", cmd=line, listed_before=[x for x in lsub_before if x not in after][:5], listed_after=[x for x in after if x not in lsub_before][:5])
-        # "a/" names the same mailbox as "a"; a leading separator is stripped
-        name = name.strip("/")
+        # "a/" names the same mailbox as "a"; a leading separator is stripped, "./a" and "a//b" are
+        # spelled "a" and "a/b"
+        name = norm_mbox_name(name)
+        if name in (".", ""):
+            # the mail directory itself is not a mailbox
+            self.C("c17_create_root")
+            if r.ok:
+                self.V("C17", "create_existing_ok", name=op["name"])
+            return
         key = "inbox" if name.lower() == "inbox" else name
         ex = self.model.boxes.get(key)
         if name.lower() == "inbox" or (ex is not None and not ex.noselect):
@@ -2399,6 +2583,19 @@ class NamespaceOps:
             if pn and pn not in self.model.boxes:
                 self.model.boxes[pn] = MBox(pn)
         await self.after_mutation([self.model.boxes[name]] if name in self.model.boxes else [], "create")
+        if r.ok and self.compare:
+            # C17: a namespace command leaves the messages of every other mailbox alone (a child whose
+            # name is all digits must not turn up as a message of its parent)
+            self.C("c17_create_leaves_parents_alone")
+            self.blame = ("C17", "namespace_command_changed_messages")
+            try:
+                for j in range(1, len(parts)):
+                    pn = "/".join(parts[:j])
+                    pb = self.model.boxes.get("inbox" if pn.lower() == "inbox" else pn)
+                    if pb is not None and not pb.noselect:
+                        await self.compare_box(pb, why="create-child")
+            finally:
+                self.blame = None
 
     async def op_delete(self, op):
         sess, ms = self.sess(op)
@@ -2406,9 +2603,9 @@ class NamespaceOps:
             return
         name = op["name"]
         bare = name[1:] if name.startswith("/") else name  # one leading hierarchy separator is not part of the name
-        key = "inbox" if bare.lower() == "inbox" else bare
+        key = norm_mbox_name(bare)
         before = self.dir_snapshot() if self.compare else None
-        line = f"DELETE {quote(name)}"
+        line = f"DELETE {spell(name, op)}"
         r = await self.run_cmd(sess, ms, line)
         if r.status is None or not self.compare:
             return
@@ -2442,6 +2639,7 @@ class NamespaceOps:
             box.msgs = []
             box.uvv_history.append(box.uvv)
             box.uvv = None
+            box.renamed_in = False
             box.ledger = {}
             box.claims = {}
             box.nonrecent = set()
@@ -2451,13 +2649,14 @@ class NamespaceOps:
             del self.model.boxes[key]
             self.C("c17_deleted_leaf")
             # a deleted leaf must be neither listed nor selectable
-            rr = await self.obs.command(f'LIST "" {quote(name)}')
-            if any(n == name for n, _ in self.parse_list(rr)):
+            rr = await self.obs.command(f'LIST "" {quote(key)}')
+            if any(n == key for n, _ in self.parse_list(rr)):
                 self.V("C17", "deleted_leaf_still_listed", name=name, subscribed=box.subscribed, reply=rr.brief())
                 # keep the model usable: asimap keeps it as a placeholder
                 box.noselect = True
                 box.msgs = []
                 box.uvv = None
+                box.renamed_in = False
                 box.ledger = {}
                 box.claims = {}
                 box.nonrecent = set()
@@ -2470,12 +2669,22 @@ class NamespaceOps:
         if sess is None or ms.dead:
             return
         old, new = op["name"], op["to"]
-        okey = "inbox" if old.lower() == "inbox" else old
-        nkey = "inbox" if new.lower() == "inbox" else new
         before = self.dir_snapshot() if self.compare else None
-        line = f"RENAME {quote(old)} {quote(new)}"
+        line = f"RENAME {spell(old, op)} {spell(new, op)}"
         r = await self.run_cmd(sess, ms, line)
         if r.status is None or not self.compare:
+            return
+        old, new = norm_mbox_name(old), norm_mbox_name(new)
+        okey = "inbox" if old.lower() == "inbox" else old
+        nkey = "inbox" if new.lower() == "inbox" else new
+        if new in (".", "") or old in (".", ""):
+            self.C("c17_rename_root")
+            if r.ok:
+                self.V("C17", "rename_invalid_ok", old=op["name"], new=op["to"])
+                for b in self.model.boxes.values():
+                    b.uncertain = True
+            else:
+                await self.ns_refused_unchanged(before, line)
             return
         src = self.model.boxes.get(okey)
         if src is None or nkey in self.model.boxes or nkey.startswith(okey + "/"):
@@ -2509,6 +2718,8 @@ class NamespaceOps:
                 b = self.model.boxes.pop(n)
                 nn = nkey + n[len(okey):]
                 b.name = nn
+                if b.uvv is None and not b.noselect:
+                    b.renamed_in = True
                 self.model.boxes[nn] = b
                 if nn in self.model.name_uvv_max and b.uvv is not None:
                     pass
@@ -2532,9 +2743,9 @@ class NamespaceOps:
         if sess is None or ms.dead:
             return
         name = op["name"]
-        key = "inbox" if name.lower() == "inbox" else name
+        key = norm_mbox_name(name)
         verb = "UNSUBSCRIBE" if op.get("un") else "SUBSCRIBE"
-        r = await self.run_cmd(sess, ms, f"{verb} {quote(name)}")
+        r = await self.run_cmd(sess, ms, f"{verb} {spell(name, op)}")
         if r.status is None or not self.compare:
             return
         box = self.model.boxes.get(key)
@@ -2552,7 +2763,7 @@ class NamespaceOps:
         if sess is None or ms.dead:
             return
         name = op["mbox"]
-        r = await self.run_cmd(sess, ms, f"STATUS {quote(name)} (MESSAGES UIDNEXT UIDVALIDITY UNSEEN RECENT)")
+        r = await self.run_cmd(sess, ms, f"STATUS {spell(name, op)} (MESSAGES UIDNEXT UIDVALIDITY UNSEEN RECENT)")
         if r.status is None or not r.ok:
             return
         box = self.model.box(name)
